@@ -1,6 +1,6 @@
 SPECIFICATION Spec
 CONSTANT O = {}
-CONSTANT Ops = {"process", "decode", "get_length", "enc", "set"}
+CONSTANT Ops = {"process", "set"}
 CONSTANT CtxIds = {1, 2}
 CONSTANT Cfg <- CfgDef
 CONSTANT Packets <- PacketsDef
